@@ -5,10 +5,10 @@ go 1.20
 require (
 	github.com/DataDog/zstd v1.5.6
 	github.com/mimecast/dtail v0.0.0
+	golang.org/x/crypto v0.26.0
 )
 
 require (
-	golang.org/x/crypto v0.26.0 // indirect
 	golang.org/x/sys v0.23.0 // indirect
 	golang.org/x/term v0.23.0 // indirect
 )
